@@ -249,7 +249,7 @@ def _compare_shard(args):
     nontrivial = counters[0]
     # second pass to recover context lines lazily (only for failures)
     model = {}
-    mon_fail, mon_count = [], {}
+    mon_fail, mon_count, kept = [], {}, {}
     with open(model_path, errors='replace') as f:
         for line in f:
             line = line.rstrip('\n')
@@ -264,7 +264,11 @@ def _compare_shard(args):
                 c[0] += 1
                 if v != '1':
                     c[1] += 1
-                    if len(mon_fail) < max_keep:
+                    # keep the first failures of every (monitor, class) pair: the many failures of a listed known finding must
+                    # not crowd out the failing input of another monitor or class
+                    kk = kept.setdefault((name, cls), [0])
+                    if kk[0] < max_keep:
+                        kk[0] += 1
                         mon_fail.append((i, name, cls))
     diffs = []
     ndiff = 0
